@@ -441,7 +441,7 @@ func ruleSMLTables(p *Prog, r *Report) {
 			var probs []string
 			seen, facSeen := false, false
 			in.OnCall = func(call *ssa.Call, callee *ssa.Function, a []Val, fr *frame) {
-				if fr.fn != f {
+				if !withinFn(fr.fn, f) { // f itself or a function literal of f (a conversion closure handed to a shared loop)
 					return
 				}
 				if callee.Pkg != nil && callee.Pkg.Pkg.Path() == "strconv" && callee.Name() == h.callee {
@@ -463,7 +463,10 @@ func ruleSMLTables(p *Prog, r *Report) {
 			in.Run(f, args, nil)
 			switch {
 			case !seen || !facSeen:
-				r.unk(rule, key, p.Pos(f.Pos()), "the strconv call or the factory call was not reached")
+				// the conversion or the factory call sits where this run does not
+				// see it (a helper, a closure run by a shared loop): decide from the
+				// dispatcher for the keyword of this width
+				bitSizeFromDispatcher(p, r, rule, h.fn, h.callee, []int64{k}, h.bitArg)
 			case len(probs) > 0:
 				r.bad(rule, key, p.Pos(f.Pos()), strings.Join(uniq(probs), "; "))
 			default:
